@@ -1,4 +1,5 @@
-/- Helper lemmas for C17: association-list maps (`find`/`insert`/`erase`) and key uniqueness. Core-only. -/
+/- Helper lemmas for C17: association-list maps (`find`/`insert`/`erase`), key uniqueness, and the
+invariants of `AcmeStorages` through one reconciliation cycle. Core-only. -/
 import HapVerif.Model.C17
 namespace HapVerif.C17
 
@@ -92,6 +93,7 @@ theorem uniq_insert {m : SMap} (h : Uniq m) (n : String) (c : Cert) : Uniq (inse
   simp only at ha; subst ha
   simp [erase] at he
 
+
 /-! removeAll -/
 
 theorem removeOne_add (s : Storages) (n : String) : (removeOne s n).add = s.add := by
@@ -172,77 +174,61 @@ theorem removeAll_del (s : Storages) (ns : List String) (k : String) (hd : s.del
   cases find s.items k <;> simp
 
 
-/-- invariant of the acquisitions of one partial cycle, relative to the state `s0` right after
-`RemoveAll`: what is in `itemsAdd` is what `items` holds under that name (same object), what is
-not in `itemsAdd` is untouched, and only names that `s0` does not hold are ever acquired -/
-structure AcqInv (s0 s : Storages) : Prop where
-  del  : s.del = s0.del
-  keep : ∀ k, find s.add k = none → find s.items k = find s0.items k
-  same : ∀ k c, find s.add k = some c → find s.items k = some c
-  fresh : ∀ k, find s.add k ≠ none → find s0.items k = none
-  uadd : Uniq s.add
+theorem mem_ops_add (a d : SMap) (n : String) (x : Cert) :
+    QOp.add n x ∈ a.map (fun e => QOp.add e.1 e.2) ++ d.map (fun e => QOp.remove e.1 e.2) ↔ (n, x) ∈ a := by
+  simp only [List.mem_append, List.mem_map]
+  constructor
+  · rintro (⟨⟨k, v⟩, he, h⟩ | ⟨e, _, h⟩)
+    · simp only [QOp.add.injEq] at h; obtain ⟨rfl, rfl⟩ := h; exact he
+    · cases h
+  · intro h; exact Or.inl ⟨(n, x), h, rfl⟩
 
-theorem acquire_inv {s0 s : Storages} (h : AcqInv s0 s) (n ch : String) (ds : List String)
-    (hn : find s0.items n = none) : AcqInv s0 (acquire s n ch ds) := by
-  unfold acquire
-  split
-  · rename_i hnone
-    refine ⟨h.del, ?_, ?_, ?_, uniq_insert h.uadd _ _⟩
-    · intro k hk
-      simp only [find_insert] at hk ⊢
-      by_cases e : k = n
-      · simp [e] at hk
-      · simp only [e, if_false] at hk ⊢; exact h.keep k hk
-    · intro k c hk
-      simp only [find_insert] at hk ⊢
-      by_cases e : k = n
-      · simp only [e, if_true] at hk ⊢; exact hk
-      · simp only [e, if_false] at hk ⊢; exact h.same k c hk
-    · intro k hk
-      simp only [find_insert] at hk
-      by_cases e : k = n
-      · subst e; exact hn
-      · simp only [e, if_false] at hk; exact h.fresh k hk
-  · rename_i cur hcur
-    have hadd : (find s.add n).isSome = true := by
-      cases hx : find s.add n with
-      | some _ => rfl
-      | none => have := h.keep n hx; rw [hcur, hn] at this; cases this
-    simp only [hadd, if_true]
-    refine ⟨h.del, ?_, ?_, ?_, uniq_insert h.uadd _ _⟩
-    · intro k hk
-      simp only [find_insert] at hk ⊢
-      by_cases e : k = n
-      · simp [e] at hk
-      · simp only [e, if_false] at hk ⊢; exact h.keep k hk
-    · intro k c hk
-      simp only [find_insert] at hk ⊢
-      by_cases e : k = n
-      · simp only [e, if_true] at hk ⊢; exact hk
-      · simp only [e, if_false] at hk ⊢; exact h.same k c hk
-    · intro k hk
-      simp only [find_insert] at hk
-      by_cases e : k = n
-      · subst e; exact hn
-      · simp only [e, if_false] at hk; exact h.fresh k hk
+theorem mem_ops_remove (a d : SMap) (n : String) (x : Cert) :
+    QOp.remove n x ∈ a.map (fun e => QOp.add e.1 e.2) ++ d.map (fun e => QOp.remove e.1 e.2) ↔ (n, x) ∈ d := by
+  simp only [List.mem_append, List.mem_map]
+  constructor
+  · rintro (⟨e, _, h⟩ | ⟨⟨k, v⟩, he, h⟩)
+    · cases h
+    · simp only [QOp.remove.injEq] at h; obtain ⟨rfl, rfl⟩ := h; exact he
+  · intro h; exact Or.inr ⟨(n, x), h, rfl⟩
 
-theorem applyAcqs_inv {s0 : Storages} (as : List Acq) {s : Storages} (h : AcqInv s0 s)
-    (hn : ∀ a ∈ as, find s0.items a.name = none) : AcqInv s0 (applyAcqs s as) := by
+
+theorem removeOne_cleared (s : Storages) (n : String) : (removeOne s n).cleared = s.cleared := by
+  unfold removeOne; split <;> rfl
+
+theorem removeAll_cleared (s : Storages) (ns : List String) : (removeAll s ns).cleared = s.cleared := by
+  unfold removeAll
+  induction ns generalizing s with
+  | nil => rfl
+  | cons n t ih => simp only [List.foldl_cons]; rw [ih, removeOne_cleared]
+
+theorem acquire_cleared (s : Storages) (n ch : String) (ds : List String) :
+    (acquire s n ch ds).cleared = s.cleared := by
+  unfold acquire; split
+  · rfl
+  · split <;> rfl
+
+theorem applyAcqs_cleared (as : List Acq) (s : Storages) : (applyAcqs s as).cleared = s.cleared := by
   unfold applyAcqs
   induction as generalizing s with
-  | nil => exact h
-  | cons a t ih =>
-    simp only [List.foldl_cons]
-    exact ih (acquire_inv h _ _ _ (hn a (List.mem_cons_self))) (fun b hb => hn b (List.mem_cons_of_mem _ hb))
+  | nil => rfl
+  | cons a t ih => simp only [List.foldl_cons]; rw [ih, acquire_cleared]
+
+theorem preUpdate_cleared (s : Storages) (c : Cycle) (h : s.cleared = false) : (preUpdate s c).cleared = c.full := by
+  unfold preUpdate
+  rw [applyAcqs_cleared]
+  cases c.full
+  · simp [removeAll_cleared, h]
+  · rfl
 
 /-! shrink -/
 
 theorem shrink_items (s : Storages) : (shrink s).items = s.items := rfl
 
-theorem shrink_add (s : Storages) (k : String) (c : Cert) :
+theorem shrink_add_partial (s : Storages) (hc : s.cleared = false) (k : String) (c : Cert) :
     find (shrink s).add k = some c ↔ find s.add k = some c ∧ find s.del k ≠ some c := by
   unfold shrink
-  simp only
+  simp only [hc, Bool.false_eq_true, if_false]
   rw [find_filter_key (fun n => !((find s.add n).isSome && find s.add n == find s.del n))]
   constructor
   · intro h
@@ -258,6 +244,9 @@ theorem shrink_add (s : Storages) (k : String) (c : Cert) :
       | false => rfl
       | true => exact absurd ((eq_of_beq hb).symm.trans ha) hd
     simp only [hne, Bool.and_false, Bool.not_false, if_true]; exact ha
+
+theorem shrink_add_full (s : Storages) (hc : s.cleared = true) : (shrink s).add = s.add := by
+  unfold shrink; simp [hc]
 
 theorem shrink_del (s : Storages) (k : String) (c : Cert) :
     find (shrink s).del k = some c ↔ find s.del k = some c ∧ find s.add k ≠ some c := by
@@ -279,42 +268,140 @@ theorem shrink_del (s : Storages) (k : String) (c : Cert) :
       | true => exact absurd ((eq_of_beq hb).trans hd) ha
     simp only [hne, Bool.and_false, Bool.not_false, if_true]; exact hd
 
-theorem shrink_uniq_add {s : Storages} (h : Uniq s.add) : Uniq (shrink s).add := uniq_filter _ h
+theorem shrink_uniq_add {s : Storages} (h : Uniq s.add) : Uniq (shrink s).add := by
+  unfold shrink; cases s.cleared
+  · exact uniq_filter _ h
+  · exact h
 theorem shrink_uniq_del {s : Storages} (h : Uniq s.del) : Uniq (shrink s).del := uniq_filter _ h
 
-
-theorem mem_ops_add (a d : SMap) (n : String) (x : Cert) :
-    QOp.add n x ∈ a.map (fun e => QOp.add e.1 e.2) ++ d.map (fun e => QOp.remove e.1 e.2) ↔ (n, x) ∈ a := by
-  simp only [List.mem_append, List.mem_map]
-  constructor
-  · rintro (⟨⟨k, v⟩, he, h⟩ | ⟨e, _, h⟩)
-    · simp only [QOp.add.injEq] at h; obtain ⟨rfl, rfl⟩ := h; exact he
-    · cases h
-  · intro h; exact Or.inl ⟨(n, x), h, rfl⟩
-
-theorem mem_ops_remove (a d : SMap) (n : String) (x : Cert) :
-    QOp.remove n x ∈ a.map (fun e => QOp.add e.1 e.2) ++ d.map (fun e => QOp.remove e.1 e.2) ↔ (n, x) ∈ d := by
-  simp only [List.mem_append, List.mem_map]
-  constructor
-  · rintro (⟨e, _, h⟩ | ⟨⟨k, v⟩, he, h⟩)
-    · cases h
-    · simp only [QOp.remove.injEq] at h; obtain ⟨rfl, rfl⟩ := h; exact he
-  · intro h; exact Or.inr ⟨(n, x), h, rfl⟩
-
-/-- the state before `AcmeUpdate` of a contract-respecting partial cycle -/
-theorem preUpdate_inv (s : Storages) (c : Cycle) (hadd : s.add = []) (hp : c.full = false) (hwf : c.wf s) :
-    AcqInv (removeAll s c.dirty) (preUpdate s c) := by
-  unfold preUpdate
-  simp only [hp, Bool.false_eq_true, if_false]
-  apply applyAcqs_inv
-  · have h0 : (removeAll s c.dirty).add = [] := by rw [removeAll_add, hadd]
-    exact ⟨rfl, fun _ _ => rfl, fun k x h => by rw [h0] at h; simp [find] at h,
-      fun k h => by rw [h0] at h; simp [find] at h, by rw [h0]; exact uniq_nil⟩
-  · intro a ha
-    rw [removeAll_items]
-    rcases hwf hp a ha with h | h
+theorem find_append (a b : SMap) (k : String) :
+    find (a ++ b) k = match find a k with | some c => some c | none => find b k := by
+  induction a with
+  | nil => simp [find]
+  | cons e t ih =>
+    obtain ⟨x, v⟩ := e
+    simp only [List.cons_append, find]
+    by_cases h : x = k
     · simp [h]
-    · simp [h]
+    · simp [h, ih]
+
+/-- invariant of the acquisitions relative to the state `s0` they start from and the storages `P`
+before the cycle -/
+structure Inv (s0 : Storages) (P : SMap) (s : Storages) : Prop where
+  keep : ∀ k, find s.add k = none → find s.items k = find s0.items k ∧ find s.del k = find s0.del k
+  same : ∀ k c, find s.add k = some c → find s.items k = some c
+  old  : ∀ k, find s.add k ≠ none → find s.del k = find P k
+  uadd : Uniq s.add
+  udel : Uniq s.del
+
+/-- what the start state must satisfy w.r.t. `P` -/
+structure Start (s0 : Storages) (P : SMap) : Prop where
+  h0 : ∀ k, find s0.items k = none → find s0.del k = find P k
+  h1 : ∀ k c, find s0.items k = some c → find s0.del k = none ∧ find P k = some c
+
+theorem acquire_inv {s0 s : Storages} {P : SMap} (hs : Start s0 P) (h : Inv s0 P s)
+    (n ch : String) (ds : List String) : Inv s0 P (acquire s n ch ds) := by
+  unfold acquire
+  split
+  · rename_i hnone
+    have hadd : find s.add n = none := by
+      cases hx : find s.add n with
+      | none => rfl
+      | some y => have := h.same n y hx; rw [hnone] at this; cases this
+    have hk := h.keep n hadd
+    have hdel : find s.del n = find P n := by rw [hk.2]; exact hs.h0 n (by rw [← hk.1]; exact hnone)
+    refine ⟨?_, ?_, ?_, uniq_insert h.uadd _ _, h.udel⟩
+    · intro k hk
+      simp only [find_insert] at hk ⊢
+      by_cases e : k = n
+      · simp [e] at hk
+      · simp only [e, if_false] at hk ⊢; exact h.keep k hk
+    · intro k c hk
+      simp only [find_insert] at hk ⊢
+      by_cases e : k = n
+      · simp only [e, if_true] at hk ⊢; exact hk
+      · simp only [e, if_false] at hk ⊢; exact h.same k c hk
+    · intro k hk
+      simp only [find_insert] at hk
+      by_cases e : k = n
+      · subst e; exact hdel
+      · simp only [e, if_false] at hk; exact h.old k hk
+  · rename_i cur hcur
+    cases hx : find s.add n with
+    | some y =>
+      simp only [Option.isSome_some, if_true]
+      refine ⟨?_, ?_, ?_, uniq_insert h.uadd _ _, h.udel⟩
+      · intro k hk
+        simp only [find_insert] at hk ⊢
+        by_cases e : k = n
+        · simp [e] at hk
+        · simp only [e, if_false] at hk ⊢; exact h.keep k hk
+      · intro k c hk
+        simp only [find_insert] at hk ⊢
+        by_cases e : k = n
+        · simp only [e, if_true] at hk ⊢; exact hk
+        · simp only [e, if_false] at hk ⊢; exact h.same k c hk
+      · intro k hk
+        simp only [find_insert] at hk
+        by_cases e : k = n
+        · subst e; exact h.old k (by rw [hx]; simp)
+        · simp only [e, if_false] at hk; exact h.old k hk
+    | none =>
+      have hk := h.keep n hx
+      have h1 := hs.h1 n cur (by rw [← hk.1]; exact hcur)
+      have hdn : find s.del n = none := by rw [hk.2]; exact h1.1
+      simp only [Option.isSome_none, Bool.false_eq_true, if_false, hdn]
+      refine ⟨?_, ?_, ?_, uniq_insert h.uadd _ _, uniq_insert h.udel _ _⟩
+      · intro k hk
+        simp only [find_insert] at hk ⊢
+        by_cases e : k = n
+        · simp [e] at hk
+        · simp only [e, if_false] at hk ⊢; exact h.keep k hk
+      · intro k c hk
+        simp only [find_insert] at hk ⊢
+        by_cases e : k = n
+        · simp only [e, if_true] at hk ⊢; exact hk
+        · simp only [e, if_false] at hk ⊢; exact h.same k c hk
+      · intro k hk
+        simp only [find_insert] at hk ⊢
+        by_cases e : k = n
+        · subst e; simp only [if_true]; exact h1.2.symm
+        · simp only [e, if_false] at hk ⊢; exact h.old k hk
+
+theorem applyAcqs_inv {s0 : Storages} {P : SMap} (hs : Start s0 P) (as : List Acq) {s : Storages}
+    (h : Inv s0 P s) : Inv s0 P (applyAcqs s as) := by
+  unfold applyAcqs
+  induction as generalizing s with
+  | nil => exact h
+  | cons a t ih => simp only [List.foldl_cons]; exact ih (acquire_inv hs h _ _ _)
+
+
+/-- start state of a partial cycle -/
+theorem start_partial (s : Storages) (dirty : List String) (hdel : s.del = []) :
+    Start (removeAll s dirty) s.items := by
+  constructor
+  · intro k hk
+    rw [removeAll_items] at hk; rw [removeAll_del s dirty k hdel]
+    by_cases hd : k ∈ dirty
+    · simp [hd]
+    · simp only [hd, if_false] at hk ⊢; exact hk.symm
+  · intro k c hk
+    rw [removeAll_items] at hk; rw [removeAll_del s dirty k hdel]
+    by_cases hd : k ∈ dirty
+    · simp [hd] at hk
+    · simp only [hd, if_false] at hk ⊢; exact ⟨trivial, hk⟩
+
+theorem clear_del (s : Storages) (hdel : s.del = []) : (clear s).del = s.items := by
+  unfold clear; simp [hdel]
+
+theorem start_full (s : Storages) (hdel : s.del = []) : Start (clear s) s.items := by
+  constructor
+  · intro k _; rw [clear_del s hdel]
+  · intro k c hk; simp [clear, find] at hk
+
+theorem inv_init (s0 : Storages) (P : SMap) (ha : s0.add = []) (hu : Uniq s0.del) : Inv s0 P s0 :=
+  ⟨fun _ _ => ⟨rfl, rfl⟩, fun k c h => by rw [ha] at h; simp [find] at h,
+   fun k h => by rw [ha] at h; simp [find] at h, by rw [ha]; exact uniq_nil, hu⟩
 
 theorem cycle_items (s : Storages) (c : Cycle) : (cycle s c).1.items = (preUpdate s c).items := by
   unfold cycle acmeUpdate commit
@@ -322,13 +409,77 @@ theorem cycle_items (s : Storages) (c : Cycle) : (cycle s c).1.items = (preUpdat
   · split <;> rfl
   · rfl
 
-theorem cycle_committed (s : Storages) (c : Cycle) : (cycle s c).1.add = [] ∧ (cycle s c).1.del = [] := by
-  unfold cycle commit; exact ⟨rfl, rfl⟩
+theorem cycle_committed (s : Storages) (c : Cycle) :
+    (cycle s c).1.add = [] ∧ (cycle s c).1.del = [] ∧ (cycle s c).1.cleared = false := by
+  unfold cycle commit; exact ⟨rfl, rfl, rfl⟩
 
 theorem cycle_ops_leader (s : Storages) (c : Cycle) (hl : c.leader = true) (ha : c.acct = true) :
     (cycle s c).2 = (shrink (preUpdate s c)).add.map (fun e => QOp.add e.1 e.2) ++
                     (shrink (preUpdate s c)).del.map (fun e => QOp.remove e.1 e.2) := by
   unfold cycle acmeUpdate; simp [hl, ha]
+
+/-- removals, for both kinds of cycle -/
+theorem removes_char {s0 s : Storages} {P : SMap} (_hs : Start s0 P) (inv : Inv s0 P s)
+    (h2 : ∀ k c, find s0.del k = some c → find P k = some c ∧ find s0.items k = none)
+    (h3 : ∀ k c, find P k = some c → find s0.items k = some c ∨ find s0.del k = some c)
+    (k : String) (x : Cert) :
+    (find s.del k = some x ∧ find s.add k ≠ some x) ↔ (find P k = some x ∧ find s.items k ≠ some x) := by
+  constructor
+  · rintro ⟨hd, ha⟩
+    cases hx : find s.add k with
+    | none =>
+      have hk := inv.keep k hx
+      rw [hk.2] at hd
+      have := h2 k x hd
+      exact ⟨this.1, by rw [hk.1, this.2]; simp⟩
+    | some y =>
+      have ho := inv.old k (by rw [hx]; simp)
+      rw [ho] at hd
+      refine ⟨hd, ?_⟩
+      rw [inv.same k y hx]
+      intro e; cases e; exact ha hx
+  · rintro ⟨hp, hn⟩
+    cases hx : find s.add k with
+    | none =>
+      have hk := inv.keep k hx
+      rcases h3 k x hp with h | h
+      · rw [hk.1] at hn; exact absurd h hn
+      · exact ⟨by rw [hk.2]; exact h, by simp⟩
+    | some y =>
+      have ho := inv.old k (by rw [hx]; simp)
+      refine ⟨by rw [ho]; exact hp, ?_⟩
+      intro e; cases e
+      exact hn (inv.same k x hx)
+
+theorem removeOne_uniq_items {s : Storages} (h : Uniq s.items) (n : String) : Uniq (removeOne s n).items := by
+  unfold removeOne; split
+  · exact uniq_erase h _
+  · exact h
+
+theorem removeAll_uniq_items {s : Storages} (h : Uniq s.items) (ns : List String) : Uniq (removeAll s ns).items := by
+  unfold removeAll
+  induction ns generalizing s with
+  | nil => exact h
+  | cons n t ih => simp only [List.foldl_cons]; exact ih (removeOne_uniq_items h n)
+
+theorem acquire_uniq_items {s : Storages} (h : Uniq s.items) (n ch : String) (ds : List String) :
+    Uniq (acquire s n ch ds).items := by
+  unfold acquire; split
+  · exact uniq_insert h _ _
+  · split <;> exact uniq_insert h _ _
+
+theorem applyAcqs_uniq_items (as : List Acq) {s : Storages} (h : Uniq s.items) : Uniq (applyAcqs s as).items := by
+  unfold applyAcqs
+  induction as generalizing s with
+  | nil => exact h
+  | cons a t ih => simp only [List.foldl_cons]; exact ih (acquire_uniq_items h _ _ _)
+
+theorem cycle_uniq_items (s : Storages) (c : Cycle) (hu : Uniq s.items) : Uniq (cycle s c).1.items := by
+  rw [cycle_items]; unfold preUpdate
+  apply applyAcqs_uniq_items
+  cases c.full
+  · exact removeAll_uniq_items hu _
+  · exact uniq_nil
 
 
 end HapVerif.C17
